@@ -10,6 +10,7 @@ import (
 	"strings"
 	"sync"
 
+	"github.com/BlackVectorOps/semantic_firewall/v3/pkg/analysis/loop"
 	"golang.org/x/tools/go/packages"
 	"golang.org/x/tools/go/ssa"
 )
@@ -41,6 +42,7 @@ type Frame struct {
 	free   []Val
 	defers []deferred
 	caller *Frame
+	loops  *frameLoops
 }
 
 func (in *Interp) lookupFunc(pkg, name string) interface{} {
@@ -345,10 +347,18 @@ func (in *Interp) callFunction(p *Path, caller *Frame, fv FuncVal, args []Val, s
 	if p.depth > 400 {
 		p.end("unsupported", "call depth > 400 in "+name)
 	}
+	if p.ex.cfg.MaxDepth > 0 && p.depth > p.ex.cfg.MaxDepth {
+		p.end("unwind", fmt.Sprintf("call depth > %d in %s", p.ex.cfg.MaxDepth, name))
+	}
 	fr := &Frame{fn: fn, env: make(map[ssa.Value]Val, 32), free: fv.free, caller: caller}
 	for i, prm := range fn.Params {
 		if i < len(args) {
 			fr.env[prm] = args[i]
+		}
+	}
+	if p.ex.cfg.LoopCheck && in.isRepoPkg(fn.Pkg) && !strings.HasPrefix(fn.Name(), "Verif") {
+		if fl := loopsOf(fn); fl != nil {
+			fr.loops = &frameLoops{fl: fl, acts: map[*loop.Loop]*loopAct{}}
 		}
 	}
 	r := in.exec(p, fr)
@@ -451,6 +461,9 @@ func (in *Interp) exec(p *Path, fr *Frame) Val {
 				fr.env[block.Instrs[i].(*ssa.Phi)] = vals[i]
 			}
 		}
+		if fr.loops != nil {
+			in.loopHook(p, fr, prev, block)
+		}
 		for _, ins := range block.Instrs[nphi:] {
 			p.steps++
 			if p.steps > p.ex.cfg.MaxSteps {
@@ -495,6 +508,9 @@ func (in *Interp) exec(p *Path, fr *Frame) Val {
 						tv[i] = in.get(p, fr, rv)
 					}
 					r = tv
+				}
+				if fr.loops != nil {
+					in.loopFrameEnd(p, fr)
 				}
 				return r
 			case *ssa.Panic:
